@@ -4,7 +4,7 @@ EXTENDS Supervised
 AllSrcs    == {"xy", "rows", "rowsH", "sparse", "csv", "csvH", "arff", "arffS", "libsvm", "manik"}
 ObjSrcs    == {"xy", "rows", "rowsH", "sparse"}
 TextSrcs   == {"csv", "csvH", "arff", "arffS", "libsvm", "manik"}
-TakesQuick == {-1, 2}
+TakesQuick == {-1, 0, 2}
 TakesFull  == {-1, 0, 1, 2, 3, 5}
 TakesSome  == {-1, 1, 3}
 (* <<number of feature columns, position of the label column>> *)
